@@ -237,6 +237,57 @@ def sparse_cases(work, tools, tier, rep):
     return n
 
 
+def sparse_boundaries(work, tools, tier, rep):
+    """sparse maps around the capacities of their encodings: 4 entries in an old GNU header, 21 per extension header,
+    ~42 regions per 512-byte record of a PAX 1.0 map (offset\\nsize\\n text), with members FOLLOWING the sparse file so
+    that a wrong record count shows up as a lost or garbled neighbour"""
+    regions = [1, 4, 5, 21, 25, 26, 40, 42, 43, 44, 60, 86, 130] if tier != "quick" else [4, 5, 25, 26, 42, 44, 60, 90]
+    unit = 4096
+    d = work + "/sparseb"
+    os.makedirs(d, exist_ok=True)
+    n = 0
+    fmts = [("gnu-old", ["--format=gnu", "-S"]), ("pax-0.0", ["--format=pax", "-S", "--sparse-version=0.0"]),
+            ("pax-0.1", ["--format=pax", "-S", "--sparse-version=0.1"]), ("pax-1.0", ["--format=pax", "-S", "--sparse-version=1.0"])]
+    for R in regions:
+        sub = "%s/r%d" % (d, R)
+        os.makedirs(sub + "/zdir")
+        with open(sub + "/a_sparse", "wb") as f:
+            for k in range(R):
+                f.seek((2 * k + 1) * unit)
+                f.write(bytes([33 + k % 90]) * unit)
+            f.truncate((2 * R + 1) * unit)
+        open(sub + "/b_after.txt", "wb").write(b"the member after the sparse file %d\n" % R)
+        os.symlink("b_after.txt", sub + "/c_link")
+        open(sub + "/zdir/inner", "wb").write(b"inner")
+        want = {b"a_sparse": vlib.sha(open(sub + "/a_sparse", "rb").read()), b"b_after.txt": vlib.sha(open(sub + "/b_after.txt", "rb").read()),
+                b"zdir/inner": vlib.sha(b"inner")}
+        for fname, fa in fmts:
+            ar = "%s/b_%s_%d.tar" % (work, fname, R)
+            rc, o, e = sh(["tar", "-C", sub, "-c", "-f", ar] + fa + ["a_sparse", "b_after.txt", "c_link", "zdir"], timeout=120)
+            if rc != 0:
+                raise RuntimeError("GNU tar failed: %s" % e[-200:])
+            out = "%s/b_%s_%d.sqfs" % (work, fname, R)
+            rc, o, e = sh([tools + "/tar2sqfs", "-q", "-f", "-c", "gzip", "-b", "4096", out], stdin=open(ar, "rb").read(), timeout=120)
+            n += 1
+            if rc != 0:
+                rep.violation("tar-sparse-rejected-%s" % fname, "tar2sqfs rejects a GNU tar %s archive whose sparse member has %d data regions: %s"
+                              % (fname, R, e.decode(errors="replace")[-200:]), artefact=ar)
+                continue
+            t = sqfsimg.load(out).tree()
+            probs = [p.decode() for p, h in want.items() if p not in t or t[p].get("sha") != h]
+            if b"c_link" not in t or t[b"c_link"]["kind"] != "slink":
+                probs.append("c_link")
+            if b"zdir" not in t:
+                probs.append("zdir")
+            if probs:
+                rep.violation("tar-sparse-neighbours-%s" % fname, "sparse format %s, %d data regions: entries %s are missing or differ in the image" % (fname, R, probs),
+                              artefact=ar, data={"regions": R, "entries": probs})
+            os.unlink(out)
+            if not probs:
+                os.unlink(ar)
+    return n
+
+
 def dialect_entries(rng):
     long99, long100, long101 = "a" * 99, "b" * 100, "c" * 101
     ents = [dict(name="d", type="dir", mode=0o750, uid=5, gid=6, mtime=1500000000),
@@ -340,7 +391,7 @@ def run(tier):
     evaluations += n
     nontrivial.update("writer-matrix-%d" % k for k in range(n))
     # ---- sparse layouts ------------------------------------------------------------------------------------
-    n = sparse_cases(work, tools, tier, rep)
+    n = sparse_cases(work, tools, tier, rep) + sparse_boundaries(work, tools, tier, rep)
     evaluations += n
     nontrivial.update("sparse%d" % k for k in range(n))
     # ---- dialect matrix --------------------------------------------------------------------------------------
